@@ -596,12 +596,21 @@ Qed.
 (* (5) K1 repaired: every error exit of process_batch_write rolls back, so the connection is never left inside
    a transaction: a failed batch does not take the writer out of service *)
 Definition res_unstuck (r : txn_res) : Prop := match r with TErr _ s => s = false | _ => True end.
+Lemma stmts_run_unstuck : forall sched a ss n t first, a_rollback a = true -> res_unstuck (stmts_run sched a n t ss first).
+Proof.
+  intros sched a. induction ss as [|s ss IH]; intros n t first Ha; cbn [stmts_run]; [exact I|].
+  destruct first; [apply IH; exact Ha|].
+  destruct (sched (n + 1)%N); [apply IH; exact Ha|cbn; rewrite Ha; reflexivity|exact I].
+Qed.
 Lemma group_steps_unstuck : forall sched a gs acc, a_rollback a = true -> res_unstuck acc ->
   res_unstuck (fold_left (group_step sched a) gs acc).
 Proof.
   intros sched a. induction gs as [|g gs IH]; intros acc Ha H; cbn [fold_left]; [exact H|].
   apply IH; [exact Ha|]. unfold group_step. destruct acc as [n t|n s|n p]; try exact H.
-  destruct (sched (n + 1)%N); [destruct (sched (n + 2)%N); exact I|cbn; rewrite Ha; reflexivity|exact I].
+  destruct (sched (n + 1)%N); [|cbn; rewrite Ha; reflexivity|exact I].
+  pose proof (stmts_run_unstuck sched a g (n + 1)%N (group_pre a t) true Ha) as Hu.
+  destruct (stmts_run sched a (n + 1) (group_pre a t) g true) as [n2 t2|n2 s2|n2 p2]; try exact Hu.
+  destruct (sched (n2 + 1)%N); exact I.
 Qed.
 Lemma req_steps_unstuck : forall sk sched b acc, arms_rollback sk = true -> res_unstuck acc ->
   res_unstuck (fold_left (req_step sk sched) b acc).
@@ -651,8 +660,8 @@ Proof.
 Qed.
 (* a failed batch is followed by a batch that commits (closed example on the code's skeleton: COMMIT of the first
    batch fails, the second batch is applied and acknowledged) *)
-Definition k1_req : req := mkReq KMutation [[Put 1 7 7]] [1%N] ANone.
-Definition k1_req2 : req := mkReq KMutation [[Put 1 8 8]] [1%N] ANone.
+Definition k1_req : req := mkReq KMutation [[[Put 1 7 7]]] [1%N] ANone.
+Definition k1_req2 : req := mkReq KMutation [[[Put 1 8 8]]] [1%N] ANone.
 Lemma service_continues :
   let r := run_batches code_skeleton (sched_of (FFail 5)) 0 {| w_disk := init_disk []; w_stuck := false |} true [[k1_req]; [k1_req2]] in
   map (fun x => (it_ack x, it_committed x)) (rr_items r) = [(Some false, false); (Some true, true)] /\ w_stuck (rr_state r) = false.
@@ -661,18 +670,18 @@ Proof. vm_compute. split; reflexivity. Qed.
 (* (6) the known class is real: closed witness = the directed case the harness replays on the real code *)
 Definition k2_witness : c13case :=
   CRun [(20000, 20000, 1); (20001, 20001, 1); (20100, 20100, 1); (20101, 20101, 2)]%N
-       [[mkReq KWrite [[Put 0 30900 1]] [] ANone];
-        [mkReq KRoomMutation [[Put 0 40061 1]] [] (ANeeds false true);
-         mkReq KRoomMutation [[Put 0 40062 1; Put 2 63 63]] [2%N] (ANeeds true false)]] [] FNone.
+       [[mkReq KWrite [[[Put 0 30900 1]]] [] ANone];
+        [mkReq KRoomMutation [[[Put 0 40061 1]]] [] (ANeeds false true);
+         mkReq KRoomMutation [[[Put 0 40062 1; Put 2 63 63]]] [2%N] (ANeeds true false)]] [] FNone.
 Lemma k2_refutes : wf_case k2_witness = true /\ spec_C13 k2_witness (run_C13 k2_witness) = false /\ known_C13 k2_witness = [1].
 Proof. vm_compute. repeat split; reflexivity. Qed.
 
 Definition nonvacuous_case : c13case :=
   CRun [(20000, 20000, 1); (20100, 20100, 1); (20101, 20101, 2)]%N
-       [[mkReq KWrite [[Put 0 30900 1]] [] ANone];
-        [mkReq KMutation [[Put 1 101 101; Put 2 102 102; Put 0 10102 1]] [1; 2]%N ANone;
-         mkReq KDeletion [[Del 1 20000]] [1%N] ANone; mkReq KCompute [[]] [] ANone]]
-       [(mkReq KNodes [[Put 1 105 105]; [Put 1 106 106]] [1%N] ANone, false)] (FKill 17).
+       [[mkReq KWrite [[[Put 0 30900 1]]] [] ANone];
+        [mkReq KMutation [[[Put 1 101 101; Put 2 102 102; Put 0 10102 1]]] [1; 2]%N ANone;
+         mkReq KDeletion [[[Del 1 20000]]] [1%N] ANone; mkReq KCompute [[[]]] [] ANone]]
+       [(mkReq KNodes [[[Put 1 105 105]]; [[Put 1 106 106]]] [1%N] ANone, false)] (FKill 17).
 Lemma nonvacuous : wf_case nonvacuous_case = true /\ known_C13 nonvacuous_case = [] /\
   run_C13 nonvacuous_case = [1; -1; 1;  0; -1; 1;  0; -1; 1;  0; -1; 1;  0; -1; 0;  0; 6; 1; 1; 1; 1; 1; 1].
 Proof. vm_compute. repeat split; reflexivity. Qed.
